@@ -364,42 +364,47 @@ func ruleT3(c *Ctx, id string) {
 		for _, hp := range fhParams {
 			for _, fld := range []string{"Ino", "Gen"} {
 				want := map[string]string{"Ino": "Inum", "Gen": "Gen"}[fld]
-				g := guardedBy(vr, r.Block(), func(cd Cond) (bool, bool) {
-					if cd.Op != token.EQL && cd.Op != token.NEQ {
+				g := guardedByX(vr, r.Block(), func(sub Subst) func(Cond) (bool, bool) {
+					return func(cd Cond) (bool, bool) {
+						if cd.Op != token.EQL && cd.Op != token.NEQ || cd.X == nil || cd.Y == nil {
+							return false, false
+						}
+						for _, pr := range [][2]ssa.Value{{cd.X, cd.Y}, {cd.Y, cd.X}} {
+							n, fl, _, _ := loadedFieldS(pr[0], sub)
+							other := sub.resolve(stripConv(pr[1]))
+							if n == V.Inode && fl == want && spill(other) == hp && fieldOfParam(other) == fld {
+								return true, cd.Op == token.EQL
+							}
+						}
 						return false, false
 					}
-					for _, pr := range [][2]ssa.Value{{cd.X, cd.Y}, {cd.Y, cd.X}} {
-						n, fl, _, _ := loadedField(pr[0])
-						if n == V.Inode && fl == want && spill(pr[1]) == hp && fieldOfParam(pr[1]) == fld {
-							return true, cd.Op == token.EQL
-						}
-					}
-					return false, false
-				})
+				}, Subst{}, 0)
 				R.Check(g, id, fmt.Sprintf("nfs.validateRename|%s.%s compared", hp.Name(), fld), P.Pos(r.Pos()), fmt.Sprintf("'return true' is dominated by <relocked dir>.%s == %s.%s", want, hp.Name(), fld), "guard dominates", "revalidation can succeed without this comparison: a reused directory inode is taken for the handle's directory")
 			}
 		}
 		for _, np := range nameParams {
-			g := guardedBy(vr, r.Block(), func(cd Cond) (bool, bool) {
-				if cd.Op != token.EQL && cd.Op != token.NEQ {
+			g := guardedByX(vr, r.Block(), func(sub Subst) func(Cond) (bool, bool) {
+				return func(cd Cond) (bool, bool) {
+					if cd.Op != token.EQL && cd.Op != token.NEQ || cd.X == nil || cd.Y == nil {
+						return false, false
+					}
+					for _, pr := range [][2]ssa.Value{{cd.X, cd.Y}, {cd.Y, cd.X}} {
+						ex, ok := sub.resolve(stripConv(pr[0])).(*ssa.Extract)
+						if !ok || ex.Index != 0 {
+							continue
+						}
+						lc, ok := ex.Tuple.(*ssa.Call)
+						if !ok || lc.Call.StaticCallee() != lookup || sub.resolve(stripConv(lc.Call.Args[2])) != ssa.Value(np) {
+							continue
+						}
+						n, fl, _, _ := loadedFieldS(pr[1], sub)
+						if n == V.Inode && fl == "Inum" {
+							return true, cd.Op == token.EQL
+						}
+					}
 					return false, false
 				}
-				for _, pr := range [][2]ssa.Value{{cd.X, cd.Y}, {cd.Y, cd.X}} {
-					ex, ok := pr[0].(*ssa.Extract)
-					if !ok || ex.Index != 0 {
-						continue
-					}
-					lc, ok := ex.Tuple.(*ssa.Call)
-					if !ok || lc.Call.StaticCallee() != lookup || stripConv(lc.Call.Args[2]) != ssa.Value(np) {
-						continue
-					}
-					n, fl, _, _ := loadedField(pr[1])
-					if n == V.Inode && fl == "Inum" {
-						return true, cd.Op == token.EQL
-					}
-				}
-				return false, false
-			})
+			}, Subst{}, 0)
 			R.Check(g, id, fmt.Sprintf("nfs.validateRename|name %s re-resolved", np.Name()), P.Pos(r.Pos()), fmt.Sprintf("'return true' is dominated by LookupName(dir, %s) == <relocked inode>.Inum", np.Name()), "guard dominates", "revalidation can succeed although this name now denotes another object: RENAME unlinks one object and frees another")
 		}
 	}
